@@ -122,6 +122,18 @@ def functions(ctx):
             f = AFunc(f'{kind}_returning_{sign[len("HintSign"):]}{"_subscripted" if sub_ else ""}', (), ('x',), None, (), None, kind, ann)
             f.pattern, f.ret_kind = 'all', 'class'
             out.append(f)
+    # pseudo-callables: the decorated callable is the bound __call__ of an object — it has a code object of its own kind but is
+    # no function object
+    for kind in ('coro', 'gen', 'agen', 'sync'):
+        ann = {'x': C('T_x'), 'return': C('R')}
+        if kind == 'gen':
+            ann['return'] = G.shallow('HintSignGenerator')
+        if kind == 'agen':
+            ann['return'] = G.shallow('HintSignAsyncGenerator')
+        f = AFunc(f'pseudo_callable_{kind}', (), ('x',), None, (), None, kind, ann)
+        f.is_function = False
+        f.pattern, f.ret_kind = 'all', 'class'
+        out.append(f)
     # unannotated callable and return-only callable
     out.append(AFunc('bare', (), ('x',), None, (), None, 'sync', {}))
     out[-1].pattern, out[-1].ret_kind = 'none', 'none'
